@@ -189,6 +189,20 @@ def expand_simple_apps(ck, t: Term, depth: int = 2) -> Term:
 
     def go(x: Term) -> Term:
         x = T.rebuild(x, go)
+        if x[0] == "attr" and isinstance(x[2], str):
+            # a property read through a receiver of unknown type: unique property of that name in the repository
+            owners = [c for c in ctx.p.classes.values() if not c.module.is_test and x[2] in c.methods and c.methods[x[2]].is_property]
+            if len(owners) == 1:
+                fnp = owners[0].methods[x[2]]
+                levels = [y[1] for y in T.subterms(x) if y[0] == "bv"]
+                n = Normalizer(ctx, fnp, env={fnp.self_name: x[1]} if fnp.self_name else {}, level=(max(levels) + 1) if levels else 0)
+                try:
+                    r = n._body_to_term(list(fnp.body))
+                except Exception:
+                    r = None
+                if r is not None and not T.contains(r, x):
+                    return expand_simple_apps(ck, r, depth - 1)
+            return x
         if x[0] == "app":
             fn = ctx.p.functions.get(x[1])
             if fn is not None and not fn.module.is_test:
@@ -270,9 +284,31 @@ def cmap_reader_methods(ck):
             read = m
         if "OpticalMap(" in txt and "readFile" not in txt:
             parse = m
+    if read is not None and parse is None:
+        _paired_by_position(ck, read)
     if read is None or parse is None:
         raise AnalysisError(f"{cr.where}: CmapReader's reading method / per-molecule parser not found")
     return read, parse
+
+
+def _paired_by_position(ck, read):
+    """no per-molecule parser: if the reader builds OpticalMap(id, length, positions) from sequences that are zipped together,
+    a molecule's length is whatever happens to stand at the same index - not the length recorded under the molecule's id"""
+    for n in ast.walk(read.node):
+        if isinstance(n, ast.Call) and isinstance(n.func, ast.Name) and n.func.id == "OpticalMap":
+            holder = None
+            for m in ast.walk(read.node):
+                if isinstance(m, (ast.ListComp, ast.GeneratorExp)) and any(x is n for x in ast.walk(m)):
+                    holder = m
+            zips = [g.iter for g in holder.generators if isinstance(g.iter, ast.Call) and isinstance(g.iter.func, ast.Name)
+                    and g.iter.func.id == "zip"] if holder is not None else []
+            if zips:
+                rule = "C17.2" if ck.prop_id == "C17" else ("C10.3" if ck.prop_id == "C10" else f"{ck.prop_id}.reader")
+                ck.violation(rule, short(read) + ":paired-by-position", where(read, n),
+                             "molecule id / label positions and molecule length are taken from two sequences that are zipped "
+                             "together: they are paired by position, not by molecule id (a molecule without labels, present in one "
+                             "sequence only, shifts every later length)", found=ast.unparse(zips[0])[:160],
+                             required="length and labels selected from the rows of one CMapId")
 
 
 class _Mismatch(Exception):
